@@ -177,7 +177,7 @@ func attrAddOp(r *rand.Rand, id int) *wire.Rec {
 	maxS := pick(r, 30.0, 60, 90, 120, 0)
 	hpBase := pick(r, 100.0, 1000, 3500.5, 1)
 	op := wire.R("add").I("id", id).F("hpr", pick(r, 1.0, 0.5, 0, frac(r))).
-		F("energy", frac(r)*maxE).F("maxenergy", maxE).
+		F("energy", pick(r, frac(r)*maxE, frac(r)*maxE, maxE, maxE+35.5, 2*maxE+1)).F("maxenergy", maxE). // also more energy than fits: clamped at registration
 		F("stance", pick(r, maxS, maxS*frac(r), 0)).F("maxstance", maxS)
 	attrPropsInto(r, op, hpBase)
 	return op
